@@ -238,6 +238,15 @@ pub fn run(cfg: &PoolCfg, cases: &[Vec<u8>]) -> Vec<Outcome> {
     let n = cases.len();
     let results: Arc<Mutex<Vec<Option<Outcome>>>> = Arc::new(Mutex::new(vec![None; n]));
     let next = Arc::new(AtomicUsize::new(0));
+    // crash budget: once this many cases of one run have crashed / timed out (after confirmation), the
+    // remaining cases are not run (each would cost its full wall-clock cap): the run is a failure already
+    let crashes = Arc::new(AtomicUsize::new(0));
+    // (sized so that crashing cases cost about two minutes of wall clock at most: a crash costs up to three
+    // times the cap — the run and its confirmation with a doubled cap)
+    let crash_budget: usize = std::env::var("VCHECK_CRASH_BUDGET")
+        .ok()
+        .and_then(|s| s.parse().ok())
+        .unwrap_or_else(|| ((40.0 * cfg.workers as f64 / cfg.timeout.as_secs_f64().max(0.5)) as usize).clamp(20, 150));
     // small chunks: slow cases cluster (neighbouring cases come from the same template), and a chunk is
     // worked off by one worker
     let chunk = (n / (cfg.workers * 16)).clamp(1, 8);
@@ -245,6 +254,7 @@ pub fn run(cfg: &PoolCfg, cases: &[Vec<u8>]) -> Vec<Outcome> {
         for _ in 0..cfg.workers.min(n.max(1)) {
             let results = results.clone();
             let next = next.clone();
+            let crashes = crashes.clone();
             s.spawn(move || {
                 let mut w: Option<Worker> = None;
                 loop {
@@ -255,6 +265,10 @@ pub fn run(cfg: &PoolCfg, cases: &[Vec<u8>]) -> Vec<Outcome> {
                     let end = (start + chunk).min(n);
                     let mut local = Vec::with_capacity(end - start);
                     for i in start..end {
+                        if crashes.load(Ordering::SeqCst) >= crash_budget {
+                            local.push(Outcome::Died(format!("NOT RUN: {crash_budget} cases of this run had already crashed or timed out")));
+                            continue;
+                        }
                         let t0 = Instant::now();
                         let mut o = run_one(&mut w, cfg, &cases[i], cfg.timeout);
                         if t0.elapsed() > Duration::from_millis(std::env::var("VCHECK_SLOW_MS").ok().and_then(|s| s.parse().ok()).unwrap_or(5000)) && std::env::var_os("VCHECK_QUIET").is_none() {
@@ -287,6 +301,9 @@ pub fn run(cfg: &PoolCfg, cases: &[Vec<u8>]) -> Vec<Outcome> {
                             if let Some(wk) = w2 {
                                 kill_worker(wk);
                             }
+                        }
+                        if o.is_crash() {
+                            crashes.fetch_add(1, Ordering::SeqCst);
                         }
                         local.push(o);
                     }
